@@ -28,3 +28,32 @@ def bufOK : Option Nat → Bool
 theorem ldWriteBuf_tie : bufOK Facts.ldWriteBufSize = true ∧ bufOK Facts.rootLdWriteBufSize = true := ⟨by decide, by decide⟩
 
 end Car.FactsTie
+
+/-! The CARv2 header arithmetic of `v2/car.go`, translated statement by statement from the working tree
+    (`Facts.Tr`, extract/translate.go): the hand-written model computes the same functions. -/
+namespace Car
+open Car.Facts
+
+/-- the model's header seen as the translated structure (the characteristics are not touched by the arithmetic) -/
+def V2Header.toTr (h : V2Header) : Tr.Hdr := { dataOffset := h.dataOffset, dataSize := h.dataSize, indexOffset := h.indexOffset }
+
+theorem tr_newHeader (n : Nat) : Tr.newHeader n = (V2Header.new n).toTr := by
+  simp [Tr.newHeader, V2Header.new, V2Header.toTr, Tr.w, u64, pragmaSize, v2HeaderSize]
+
+theorem tr_withIndexPadding (h : V2Header) (p : Nat) : Tr.withIndexPadding h.toTr p = (h.withIndexPadding p).toTr := by
+  simp [Tr.withIndexPadding, V2Header.withIndexPadding, V2Header.toTr, Tr.w, u64]
+
+theorem tr_withDataPadding (h : V2Header) (p : Nat) : Tr.withDataPadding h.toTr p = (h.withDataPadding p).toTr := by
+  simp [Tr.withDataPadding, V2Header.withDataPadding, V2Header.toTr, Tr.w, u64, pragmaSize, v2HeaderSize]
+
+theorem tr_withDataSize (h : V2Header) (n : Nat) : Tr.withDataSize h.toTr n = (h.withDataSize n).toTr := by
+  simp [Tr.withDataSize, V2Header.withDataSize, V2Header.toTr, Tr.w, u64]
+
+theorem tr_hasIndex (h : V2Header) : Tr.hasIndex h.toTr = h.hasIndex := by
+  simp [Tr.hasIndex, V2Header.hasIndex, V2Header.toTr]
+
+/-- every function of the fragment was found and lies inside the translated fragment -/
+theorem tr_complete : Tr.translated_newHeader = true ∧ Tr.translated_withIndexPadding = true ∧
+    Tr.translated_withDataPadding = true ∧ Tr.translated_withDataSize = true ∧ Tr.translated_hasIndex = true := by decide
+
+end Car
